@@ -493,7 +493,7 @@ class ClassMethod(Function):
 	def match_feature(cls, via: Node) -> bool:
 		# @see ClassDef.decorators
 		decorators = via._children('decorators') if via._exists('decorators') else []
-		return len(decorators) > 0 and decorators[0].as_a(Decorator).path.tokens == 'classmethod'
+		return len([decorator for decorator in decorators if decorator.as_a(Decorator).path.tokens == 'classmethod']) > 0
 
 	@property
 	def is_abstract(self) -> bool:
